@@ -60,8 +60,15 @@ func vfC09Universe() []*vfworld.Key {
 	k0 := vfC09Keys[0]
 	col := &vfworld.Key{RR: dns.Copy(k0.RR).(*dns.DNSKEY), Priv: k0.Priv}
 	raw := []byte(col.RR.PublicKey)
-	raw[0], raw[1], raw[2], raw[3], raw[4], raw[5], raw[6], raw[7] = raw[4], raw[5], raw[6], raw[7], raw[0], raw[1], raw[2], raw[3]
+	// eight base64 characters are six octets, i.e. three aligned 16-bit words of the RDATA (the key starts at offset 4):
+	// swapping two such groups leaves the key tag's sum unchanged and the material different
+	for i := 0; i < 8; i++ {
+		raw[i], raw[8+i] = raw[8+i], raw[i]
+	}
 	col.RR.PublicKey = string(raw)
+	if col.RR.KeyTag() != k0.RR.KeyTag() || col.RR.PublicKey == k0.RR.PublicKey {
+		panic("harness: the colliding key does not collide")
+	}
 	vfC09Keys = append(vfC09Keys, col)
 	return vfC09Keys
 }
@@ -114,6 +121,24 @@ func vfC09Gen(rt *rapid.T) *vfC09Case {
 		c.Steps = append(c.Steps, vfC09Step{Kind: "restart", Config: [][]int{{0, 1}, {0}, {1}}[rapid.IntRange(0, 2).Draw(rt, "config2")]},
 			vfC09Step{Kind: "refresh", Pub: vfC09Pub{Present: []int{0, 1}, Revoked: []int{1}, Signers: rapid.SampledFrom([][]int{{0}, {}, {0, 1}}).Draw(rt, "signers2")}})
 		present, revoked = []int{0, 1}, []int{1}
+	}
+	if len(c.Steps) == 0 && (rapid.IntRange(0, 7).Draw(rt, "scenario2") == 0 || os.Getenv("VERIF_C09_FORCE") != "") {
+		// a second directed opening: a trusted anchor is revoked in a set that also holds K4, whose key tag collides with
+		// that anchor's (so do their revoked forms) - revoked or not, signing or not
+		cfg := [][]int{{0, 1}, {0}}[rapid.IntRange(0, 1).Draw(rt, "cfg")]
+		c.Steps = append(c.Steps, vfC09Step{Kind: "restart", Config: cfg}, vfC09Step{Kind: "refresh", Pub: vfC09Pub{Present: cfg, Signers: cfg}})
+		pub := vfC09Pub{Present: append(append([]int{}, cfg...), 4), Revoked: []int{0}, Signers: append(append([]int{}, cfg...), 4)}
+		if rapid.Bool().Draw(rt, "k4revoked") {
+			pub.Revoked = []int{0, 4}
+		}
+		if rapid.Bool().Draw(rt, "k4first") {
+			pub.Present = append([]int{4}, cfg...)
+		}
+		c.Steps = append(c.Steps, vfC09Step{Kind: "refresh", Pub: pub})
+		if rapid.Bool().Draw(rt, "restartafter") {
+			c.Steps = append(c.Steps, vfC09Step{Kind: "restart", Config: cfg}, vfC09Step{Kind: "refresh", Pub: pub})
+		}
+		present, revoked = pub.Present, pub.Revoked
 	}
 	for i := 0; i < n; i++ {
 		k := rapid.IntRange(0, 19).Draw(rt, "kind")
